@@ -41,6 +41,7 @@ def gen_arg(rng, w_invalid=0.08):
   if r < w_invalid:
     return rng.choice([{'k': 'name', 'v': 'a//b'}, {'k': 'name', 'v': '1x'}, {'k': 'name', 'v': 'a/'},
                        {'k': 'invalid', 'v': 42}, {'k': 'list', 'v': ['a', 'b c']}, {'k': 'name', 'v': '/a'},
+                       {'k': 'list', 'v': ['lst', 7]}, {'k': 'list', 'v': ['a', None]}, {'k': 'list', 'v': [3]},
                        {'k': 'invalid', 'v': 'cmp-raises'}])
   if r < 0.55:
     return {'k': 'name', 'v': rng.choice(G.ALPHA)}
@@ -211,6 +212,7 @@ def run_impl(case):
   def worker(tid):
     tids[threading.get_ident()] = tid
     sobs = []
+    pobs = []
     early = {}
 
     def precreate(items):
@@ -230,7 +232,7 @@ def run_impl(case):
         if it['k'] == 'catch':
           try:
             run(it['body'])
-          except (Boom, Interrupt, ValueError, RuntimeError):
+          except (Boom, Interrupt, ValueError, RuntimeError, TypeError):   # a non-string component is a TypeError
             pass
           continue
         st.checkpoint(tid)
@@ -244,6 +246,9 @@ def run_impl(case):
           handle[0] = gin.get_configurable('pm.f' if len(obs) % 2 else f)
           if shared is not None:
             sobs.append(shared())
+          # a selector string with a scope of its own: that scope, not the active one extended by it
+          px = gin.get_configurable('b/pm.f')()
+          pobs.append(None if px == -1 else encode(px, gin))
         elif it['k'] == 'raise':
           raise (Interrupt() if it.get('base') else Boom())
         else:
@@ -255,7 +260,7 @@ def run_impl(case):
         run(case['threads'][tid])
       except (Boom, Interrupt):
         outcome = 'raised'
-      except (ValueError, RuntimeError) as e:
+      except (ValueError, RuntimeError, TypeError) as e:
         outcome = 'raised'
         del e
       try:
@@ -263,7 +268,7 @@ def run_impl(case):
       except Exception:  # pylint: disable=broad-except
         depth = None
       results[tid] = {'obs': obs, 'fobs': fobs, 'top': list(gin.current_scope()), 'depth': depth, 'outcome': outcome,
-                      'scope_str': gin.current_scope_str(), 'sobs': sobs}
+                      'scope_str': gin.current_scope_str(), 'sobs': sobs, 'pobs': pobs}
     except BaseException as e:  # pylint: disable=broad-except
       results[tid] = {'crash': core.err_class(e) + ': ' + str(e)}
     finally:
@@ -318,7 +323,7 @@ def expected_fetched(obs):
 # ------------------------------------------------------------------ independent oracle
 def _valid(s):
   import re
-  return bool(re.match(r'^([a-zA-Z_]\w*\.)*[a-zA-Z_]\w*$', s))
+  return isinstance(s, str) and bool(re.match(r'^([a-zA-Z_]\w*\.)*[a-zA-Z_]\w*$', s))
 
 
 def naive(items, cur, binds, obs):
@@ -363,6 +368,11 @@ def oracle(case, impl):
     if got.get('fobs') != expected_fetched(obs):
       return (f'thread {tid}: a configurable fetched under one scope and called under another does not run in the scope '
               f'captured at fetch time: received {got.get("fobs")}, expected {expected_fetched(obs)}')
+    want_b = binds.get('b', binds.get('', None))
+    badp = [x for x in got.get('pobs', []) if x != want_b]
+    if badp:
+      return (f"thread {tid}: get_configurable('b/pm.f') fetched under an active scope must run in [b] and receive {want_b}; "
+              f'it received {badp[:3]}')
     bad = [x for x in got.get('sobs', []) if x != [777, ['job']]]
     if bad:
       return (f'thread {tid}: the shared callable fetched under scope job must run in [job] and receive 777 whoever '
